@@ -81,8 +81,8 @@ class Groups(object):
             g = self.groups[group]
             if g['bad']:
                 sc, exp, fnd = g['bad'][0]
-                self.rule.violation(group, '%s: for %s the code gives %s, the property needs %s (%d of %d cases differ)'
-                                    % (why.get(group, group), sc, fnd, exp, len(g['bad']), g['n']),
+                self.rule.violation(group, 'for %s the code gives %s, the property needs %s (%d of %d cases differ)'
+                                    % (sc, fnd, exp, len(g['bad']), g['n']),
                                     self.where, expected=str(exp), found=str(fnd))
             else:
                 self.rule.ok(group, '%d cases agree with the reference table' % g['n'], self.where)
@@ -117,7 +117,7 @@ def expected_indices(l, u, eo, c):
 
 def d1_sum(ctx, idx):
     r = ctx.rule('D1.SUM', 'perform_summation sums exactly the integers between the limits (either order), odd/even '
-                 'only when configured, +-inf -> cutoff, same-sign infinities refused', floor=6)
+                 'only when configured, +-inf -> cutoff, same-sign infinities refused', floor=7)
     with r:
         fi = idx.func(SG + '.perform_summation')
         if not fi.is_static or fi.params[:5] != ['eval_summand', 'lower', 'upper', 'even_odd', 'infty_val']:
